@@ -39,7 +39,7 @@ SPDX_SNIPPET_INDICATOR = b"SPDX-SnippetBegin"
 
 _LOGGER = logging.getLogger(__name__)
 
-_END_PATTERN = r"{}$".format(
+_END_PATTERN = r"{}[ \t]*$".format(
     "".join(
         # Sorted: the terminators come from a set, and the order in which they
         # are tried must not depend on the string hash seed.
